@@ -374,6 +374,13 @@ func c17Run(c *vk.Case) {
 				lens = append(lens, l)
 				raw := r.Bytes(l)
 				tok := []byte(`"0x` + hex.EncodeToString(raw) + `"`)
+				if r.Chance(1, 6) {
+					// JSON null (e.g. "to": null of a contract creation) and the empty string "0x" decode to
+					// no bytes: nothing of the previous value may stay in the destination
+					raw = nil
+					tok = []byte(vk.Pick(r, []string{"null", `"0x"`}))
+					c.Obs("reuse_null_or_empty", 1)
+				}
 				var err error
 				func() {
 					defer func() {
@@ -425,6 +432,25 @@ func c17Run(c *vk.Case) {
 			}
 			if !okk {
 				c.Violate("log:reuse-stale", map[string]any{"json": js}, "log decoded into reused struct differs from its JSON")
+			}
+			c.Obs("reuse_decodes", 1)
+			n++
+		}
+		// a transaction decoded into a reused struct: "to": null after a transfer must leave no recipient
+		var tx eth.Tx
+		for k := 0; k < 20; k++ {
+			to := r.Bytes(20)
+			js := fmt.Sprintf(`{"transactionIndex":"0x%x","to":"0x%x","input":"0x%x"}`, k, to, r.Bytes(r.Intn(40)))
+			creation := r.Chance(1, 3)
+			if creation {
+				js = fmt.Sprintf(`{"transactionIndex":"0x%x","to":null,"input":"0x%x"}`, k, r.Bytes(r.Intn(40)))
+			}
+			if err := gojson.Unmarshal([]byte(js), &tx); err != nil {
+				c.Violate("tx:reuse-error", map[string]any{"json": js}, "decoding tx into reused struct: %v", err)
+				continue
+			}
+			if creation && len(tx.To) != 0 || !creation && !bytes.Equal(tx.To, to) {
+				c.Violate("tx:reuse-stale-to", map[string]any{"json": js, "got_to": hex.EncodeToString(tx.To)}, "tx decoded into a reused struct keeps recipient %x (json: %s)", tx.To, js)
 			}
 			c.Obs("reuse_decodes", 1)
 			n++
